@@ -23,6 +23,7 @@ import (
 //                | 7 iotest.DataErrReader | 8 iotest.HalfReader | 9 iotest.OneByteReader (plain streams
 //                  that deliver the last data together with io.EOF / short reads)
 //                | 10 ReadOrGenerateIndex(*bytes.Reader) | 11 ReadOrGenerateIndex(Read+Seek only)
+//                | 12 GenerateIndexFromFile(path) | 13 GenerateIndexFromFile(missing path)
 //   5 and 6 are non-seekable streams that ALSO implement io.ByteReader: ToByteReadSeeker still
 //   wraps them in the discarding wrapper (no Seek), so they must behave exactly like kind 2.
 
@@ -109,6 +110,21 @@ func runIdxGenImpl(c *Ctx, kind uint64, o gOpts, file []byte, codec uint64, qs [
 			obs = VL{VT("err"), VT("PANIC")}
 		}
 	}()
+	if kind == 12 || kind == 13 { // GenerateIndexFromFile: the file written to disk (12), a missing path (13)
+		idxgenSeq++
+		p := filepath.Join(c.Work, fmt.Sprintf("idxgen-fromfile-%d.car", idxgenSeq))
+		if kind == 12 {
+			if err := os.WriteFile(p, file, 0o644); err != nil {
+				panic(err)
+			}
+			defer os.Remove(p)
+		}
+		idx, err := carv2.GenerateIndexFromFile(p, append(o.v2(), carv2.UseIndexCodec(multicodec.Code(codec)))...)
+		if err != nil {
+			return VL{VT("err"), verr(err)}
+		}
+		return VL{VT("ok"), canonOf(idx), getAllsVal(idx, qs, true)}
+	}
 	if kind >= 10 { // ReadOrGenerateIndex over a *bytes.Reader (10) or a Read+Seek-only source (11)
 		var rs io.ReadSeeker = bytes.NewReader(file)
 		if kind == 11 {
